@@ -74,9 +74,10 @@ class Sym:
 class Opaque:
     """A value we know nothing about except an abstract type tag (for isinstance)."""
 
-    def __init__(self, tag, label=""):
+    def __init__(self, tag, label="", fields=None):
         self.tag = tag
         self.label = label
+        self.fields = dict(fields or {})  # attributes the rule chose to make known (e.g. a concrete shape of a symbolic array)
 
     def __repr__(self):
         return f"<opaque {self.tag} {self.label}>"
@@ -622,6 +623,10 @@ class Folder:
             if n.attr in v.fields:
                 return v.fields[n.attr]
             raise Raised("AttributeError", n)
+        if isinstance(v, Opaque) and n.attr in v.fields:
+            return v.fields[n.attr]
+        if self.symbolic and isinstance(v, Opaque) and v.tag != "callable":
+            return Sym(f"{v.label}.{n.attr}", recv=v, attr="." + n.attr)
         if self.symbolic and isinstance(v, Sym):
             if v.fn.startswith("namedtuple(") and n.attr in v.kw:
                 return v.kw[n.attr]  # field of a record built in this very fold
